@@ -4,6 +4,7 @@ import gens
 # model (non-proof) files every run needs for the extraction
 MODEL_FILES = [
     "Params.v", "Base/Res.v", "Base/ListX.v", "Spec.v",
+    "Base/Bits.v", "Base/Word.v", "Vec/MaskRep.v", "Mem/Bytewise.v", "Mem/Generic.v", "Mem/Swar.v", "Mem/Wrappers.v",
     "Sub/IsEqual.v", "Sub/Pair.v",
 ]
 
@@ -43,3 +44,29 @@ PROPS["C19"] = dict(
          "needles of length 0,1,2,3,255,256,300; non-trivial = needle of at least 3 bytes",
     assumptions=["the ranker is a pure function u8 -> u8 (an impure HeuristicFrequencyRank is outside the model)"],
 )
+
+MEM_PROOF_FILES = ["Base/BitsProofs.v", "Vec/MaskLaws.v", "Base/WordProofs.v", "Mem/BytewiseProofs.v",
+                   "Mem/GenericProofs.v", "Mem/NoMatch.v", "Mem/SwarProofs.v", "Mem/WrappersProofs.v"]
+MEM_TRUSTED = ["vector intrinsics below the lane level (_mm_cmpeq_epi8/_mm_movemask_epi8, vceqq_u8/vshrn_n_u16, u8x16_eq/u8x16_bitmask): "
+               "a loaded vector is modelled as the list of its bytes, cmpeq as a lane-wise boolean map",
+               "x & (BYTES-1) modelled as x mod BYTES (BYTES a power of two, ALIGN = BYTES-1 checked by the translator)",
+               "NEON and simd128 instantiations are proved but not executed on this host in the quick tier"]
+MEM_ASSUME = ["haystack and needle bytes are < 256 (hypothesis bytes_ok of the backend theorems)",
+              "the hooks report every vector/word/byte load of the byte-search routines",
+              "usize is 8 bytes in the runs (the SWAR proofs are generic in the word size)"]
+
+def _mem(pid, gen, what):
+    return dict(
+        id=pid, coq_files=MEM_PROOF_FILES + [f"Props/{pid}.v"],
+        gen=gen, oracle=gens.oracle_memchr, nontrivial=gens.nontrivial_memchr,
+        shrink_fields=["h"], builds=["debug", "release"],
+        rule=f"{what} on backends swar/sse2/avx2/top (top also with the dispatcher forced to SSE2-only and to the SWAR fallback) x "
+             "arity 1..3 x lengths x start alignments x match positions at every boundary (+-1) of head chunk, unrolled loop, "
+             "vector loop and overlapping tail for widths 8/16/32, plus dense patterns, haystacks flush against PROT_NONE pages "
+             "and seeded random haystacks up to 4 KiB; non-trivial = haystack of at least 16 bytes (reaches vector code)",
+        assumptions=MEM_ASSUME, trusted=MEM_TRUSTED,
+    )
+
+PROPS["C01"] = _mem("C01", gens.gen_c01, "memchr/memchr2/memchr3 and One/Two/Three::find")
+PROPS["C02"] = _mem("C02", gens.gen_c02, "memrchr/memrchr2/memrchr3 and One/Two/Three::rfind")
+PROPS["C07"] = _mem("C07", gens.gen_c07, "One::count / memchr_iter().count()")
